@@ -155,3 +155,15 @@ pub fn g_cmp<T>(_: &T, _: &T) -> Ordering { Ordering::Equal }
 pub fn g_pcmp<T>(_: &T, _: &T) -> Option<Ordering> { None }
 pub fn g_hash<T, H: Hasher>(_: &T, _: &mut H) {}
 pub fn g_fmt<T>(_: &T, f: &mut fmt::Formatter<'_>) -> fmt::Result { f.write_str("g") }
+
+/// a user newtype that bare literals reach through `Into` only (C08)
+#[derive(Debug, PartialEq)]
+pub struct N(pub i64);
+impl From<i32> for N { fn from(x: i32) -> Self { N(x as i64) } }
+impl Default for N { fn default() -> Self { N(77) } }
+impl Show for N { fn sv(&self) -> String { format!("N{}", self.0) } }
+#[derive(Debug, PartialEq)]
+pub struct Fl(pub f64);
+impl From<f64> for Fl { fn from(x: f64) -> Self { Fl(x) } }
+impl Default for Fl { fn default() -> Self { Fl(0.25) } }
+impl Show for Fl { fn sv(&self) -> String { format!("Fl{}", self.0) } }
